@@ -10,7 +10,7 @@ export VERIF_SCRATCH="$SCRATCH"
 trap 'rm -rf "$SCRATCH"' EXIT
 RACE=""
 case "${1:-}" in
-  C06|C13|C14|C17|c06|c13|c14|c17) RACE="-race" ;;
+  C06|C13|C14|C17|C18|c06|c13|c14|c17|c18) RACE="-race" ;;
 esac
 if ! go build $RACE -tags verif -o "$SCRATCH/check" ./cmd/check 2> "$SCRATCH/build.log"; then
   cat "$SCRATCH/build.log"
